@@ -12,6 +12,27 @@ CHECKS = {
                   "non-ASCII characters are the representatives é, €, 😀 (2,3,4 bytes); ASCII characters are symbolic over 0x20..0x7E"],
   "outside": ["documents longer than the bound", "JSON-RPC decoding"],
  },
+ "C02": {
+  "harnesses": [
+   {"pkg": "server", "fn": "VerifC02Notation", "quick": {"args": [], "reach": ["C02.notation"]},
+    "thorough": {"fn": "VerifC02NotationDeep", "args": ["-timeout-ms", 60000, "-deadline", "30m"], "reach": ["C02.notation"]}},
+   {"pkg": "server", "fn": "VerifC02Kinds", "quick": {"args": [], "reach": ["C02.kinds"]},
+    "thorough": {"fn": "VerifC02KindsDeep", "args": ["-timeout-ms", 60000, "-deadline", "40m"], "reach": ["C02.kinds"]}},
+   {"pkg": "server", "fn": "VerifC02Cost", "quick": {"args": [], "reach": ["C02.cost"]},
+    "thorough": {"fn": "VerifC02CostDeep", "args": ["-timeout-ms", 60000, "-deadline", "40m"], "reach": ["C02.cost"]}},
+  ],
+  "bounds": {"quick": {"postings": "2 (notation, cost) or 3 (kinds)", "digits": "all digits symbolic; 1..3 integer digits, 0..2 fraction digits, groups of 3, up to 6 fraction digits in the long-fraction notation",
+                       "notations": "plain, point, comma, trailing mark, US/EU/space grouping, multiple group marks, exponent (E2, e+1, E-1), long fraction; sign none/-/+ before the amount or after a left symbol; commodity $ left, USD right, EUR left-adjacent, quoted right, euro sign right-adjacent (8 spelling x sign combinations)",
+                       "kinds": "ordinary / (virtual) / [balanced virtual], with or without amount, 2 commodities",
+                       "costs": "unit cost with concrete price 2 or 1.5 and symbolic quantity; total cost with symbolic amount"},
+             "thorough": {"postings": "2 (notation), 4 (kinds), 2..3 (cost)", "notations": "all 5 spellings x 4 sign placements", "kinds": "3 commodities, 3 notations per posting", "costs": "unit prices 2, 1.5, 0.25, 10"}},
+  "assumptions": ["property's own restriction: not (exactly two commodities, no cost, no amount-less posting, unbalanced) [hledger infers a price]; residual not below the precision written for its commodity",
+                  "the ambiguous shape 'one mark followed by exactly three digits' is not generated (DESIGN 4.3)",
+                  "unit-cost prices are concrete (product of two symbolic quantities is non-linear)",
+                  "Decimal.String of a symbolic value is an opaque token: the wording of the message beyond the diagnostic code is not checked; the named differences are checked on BalanceResult.Differences as exact values",
+                  "cli availability probe stubbed to false"],
+  "outside": ["5-6 postings", "symbolic unit prices", "message text rendering"],
+ },
  "C19": {
   "harnesses": [
    {"pkg": "server", "fn": "VerifC19Frame", "quick": {"args": [], "reach": ["C19.frame.key", "C19.frame.nonmap", "C19.frame.unrec"]},
@@ -27,6 +48,23 @@ CHECKS = {
   "assumptions": ["numbers in payloads are concrete representatives (the executor has no symbolic floating point); float->int conversion only for |v| <= 2^53",
                   "protocol.Client is the harness's stub; os/exec availability probe stubbed to false"],
   "outside": ["two different recognised keys in one payload", "symbolic floating point payload values", "sequences are covered by one step from an arbitrary prior settings value"],
+ },
+ "C20": {
+  "harnesses": [
+   {"pkg": "server", "fn": "VerifC20Hover", "quick": {"args": [], "reach": ["C20.hover"]},
+    "thorough": {"fn": "VerifC20HoverDeep", "args": ["-deadline", "30m"], "reach": ["C20.hover"]}},
+   {"pkg": "server", "fn": "VerifC20Sums", "quick": {"args": [], "reach": ["C20.sums"]},
+    "thorough": {"fn": "VerifC20SumsDeep", "args": ["-timeout-ms", 60000, "-deadline", "30m"], "reach": ["C20.sums"]}},
+   {"pkg": "server", "fn": "VerifC20Counts", "quick": {"args": [], "reach": ["C20.counts.payee", "C20.counts.tag", "C20.counts.tagvalue", "C20.counts.amount"]}},
+  ],
+  "bounds": {"quick": {"files": "1..3 (single, root->f1, chain root->f1->f2)", "postings_to_hovered_account": "one per file plus one extra posting of 4 variants in a chosen file (<= 4)",
+                       "amounts": "hover text: 3 concrete notations (digit groups, sign, 12 decimals); sums: symbolic digits d.dd",
+                       "requests": "from root or included file, with and without workspace root, after the first and after a second background run"},
+             "thorough": {"files": "adds the star shape root->f1, root->f2", "amounts": "7 concrete notations; symbolic digits d.dd, dd.dddddddddddd (12 decimals), ddd"}},
+  "assumptions": ["hover text is checked with concrete amounts (rendering of a symbolic decimal is an opaque token); exact sums over symbolic digits are checked on the balances the hover is built from",
+                  "posting count: when some postings to the account have no amount both readings of 'such postings' are accepted",
+                  "virtual file system stubs for os.Stat/ReadFile/filepath.Walk; background analysis runs as an atomic task"],
+  "outside": ["4 files", "more than 4 postings to the hovered account"],
  },
  "SMOKE": {
   "harnesses": [{"pkg": "server", "fn": "VerifSmoke", "quick": {"args": [], "reach": ["smoke.end"]}}],
